@@ -1,4 +1,5 @@
 import ApolloModel.Model.Guards
+import ApolloModel.Proofs.Guards
 /-
 C21 — The compiler never panics on adversarial input.
 
@@ -131,7 +132,29 @@ theorem sort_stable {α : Type} (l l' : List (Key × α)) (hs : l'.Sublist l)
   List.sublist_mergeSort (fun a b c h1 h2 => keyLe_trans a.1 b.1 c.1 h1 h2)
     (fun a b => keyLe_total a.1 b.1) hsorted hs
 
+/-! ### self-referential definitions: the fragment cycle detector
+
+`detectList`/`detectSel` (Model/Guards.lean) are defined by well-founded recursion on
+`(limit + 1 - path.length, size of the selection)`: that Lean accepts the definition *is* the proof that
+`detect_fragment_cycles` terminates on every document, cyclic or not, because of the `RecursionGuard`
+limit alone (the `seen` set is an optimisation, not what bounds the recursion). -/
+
+/-- the recursion stack never grows beyond limit + 1 names -/
+theorem fragment_cycle_stack_bound (doc : Doc) (limit root : Nat) (body : List Sel) (hl : 1 ≤ limit) :
+    (fragmentCycle doc limit root body).2.high ≤ limit + 1 :=
+  (bound_all doc limit).1 [root] _ body (by simpa using hl) (by simp)
+
+/-- a reported cycle is a real one: `RecursiveFragmentDefinition` is only reported for a fragment that
+    reaches itself through a non-empty chain of spreads -/
+theorem fragment_cycle_sound (doc : Doc) (limit root : Nat) (body : List Sel)
+    (hdef : lookup doc root = some body)
+    (h : (fragmentCycle doc limit root body).1 = .recursed) : Reach doc root root :=
+  (sound_all doc limit).1 [root] _ body root root rfl (.refl root) (fun _ hn => ⟨body, hdef, hn⟩) h
+
 -- Non-vacuity
+#guard (fragmentCycle [(0, [.spread 1]), (1, [.nested [.spread 0]])] 100 0 [.spread 1]).1 == .recursed
+#guard (fragmentCycle [(0, [.spread 1]), (1, [.nested [.spread 1]])] 100 0 [.spread 1]).1 == .ok
+#guard (fragmentCycle [(0, [.spread 1]), (1, [.spread 2]), (2, [])] 1 0 [.spread 1]).1 == .limit
 example : (walk ⟨0, 0, 2⟩ (.node (.node (.node .leaf .leaf) .leaf) .leaf)).2 = true := by decide
 example : (walk ⟨0, 0, 3⟩ (.node (.node (.node .leaf .leaf) .leaf) .leaf)).2 = false := by decide
 -- (a test, evaluated by the compiler: `mergeSort` is defined by well-founded recursion)
